@@ -904,12 +904,17 @@ class Interp:
         return name
 
     def getattr_(self, o, name, default=PClass.MISSING):
+        if default is not PClass.MISSING:
+            self._attr_default = getattr(self, "_attr_default", 0) + 1
         try:
             return self._getattr(o, name)
         except PyRaise as e:
             if default is not PClass.MISSING and isinstance(e.exc, AttributeError):
                 return default
             raise
+        finally:
+            if default is not PClass.MISSING:
+                self._attr_default -= 1
 
     def _getattr(self, o, name):
         if isinstance(o, SuperProxy):
@@ -1079,6 +1084,9 @@ class Interp:
         try:
             return getattr(o, name)
         except AttributeError as e:
+            if any(o is mm for mm in getattr(self.loader, "module_models", {}).values()) and not name.startswith("__") and not getattr(self, "_attr_default", 0):
+                # an attribute the MODEL of an external module does not have says nothing about the program: the obligation is undecided, not refuted
+                raise Unsupported(f"the model of an external module ({getattr(o, '__name__', type(o).__name__)}) has no attribute {name!r}")
             raise PyRaise(e)
 
     def setattr_(self, o, name, v):
